@@ -3,17 +3,20 @@ package main
 import (
 	"fmt"
 	"os"
-	"runtime"
 	"path/filepath"
+	"runtime"
 	"sort"
 	"strconv"
 	"strings"
 	"sync"
+	"syscall"
+	"time"
 
 	"github.com/criyle/go-sandbox/pkg/seccomp"
 	"github.com/criyle/go-sandbox/pkg/seccomp/libseccomp"
 	"github.com/criyle/go-sandbox/ptracer"
 	"github.com/criyle/go-sandbox/runner"
+	"github.com/criyle/go-sandbox/runner/ptrace"
 	"github.com/elastic/go-seccomp-bpf/arch"
 	"golang.org/x/sys/unix"
 )
@@ -213,7 +216,7 @@ func (h *c03Handler) CheckSyscall(n string) ptracer.TraceAction {
 func runC03(res *Result, d *Driver, tier string, seed uint64) {
 	res.Rule = "part A: handleTrap on synthetic stopped tracees: regenerated code vs hand model (driver) on random registers and verdicts; " +
 		"part B: random programs over fork/vfork/thread trees (depth <= 2) run by the probe under the REAL ptrace runner with a filter that traces the file syscalls and three id getters, kills sethostname and allows the rest, and a handler whose decision function over {allow, ban, kill} is drawn per call (per name for the getters): the values the program itself recorded for every call, the directories that exist afterwards and Result.Status are compared with Model.Verdict.runOps (driver) using the option set of the regenerated setPtraceOption. " +
-		"non-trivial = program with a ban, a kill or a child process; distinct = script."
+		"part C: multi-threaded programs in which one thread makes a filter-killed call while others live on / end the process with exit_group(0) (verdict Disallowed Syscall); bans under every configured BanRet value. non-trivial = program with a ban, a kill or a child process; distinct = script."
 	rng := NewRng(seed, "C03", 1)
 	// ---- part A ----
 	nA := 200
@@ -397,6 +400,50 @@ func runC03(res *Result, d *Driver, tier string, seed uint64) {
 		if executed > 0 || notDisallowed > 0 {
 			res.Mismatch(Mismatch{Kind: "oracle", What: "a syscall the handler kills took effect (the tracee was resumed before it was killed) or the run did not end as Disallowed Syscall (C03_kill_ends_run)", Input: fmt.Sprintf("%d runs of `sys 258 (mkdirat) m0` with verdict kill, tracer and tracee on one CPU", nK), Impl: fmt.Sprintf("directory created in %d runs; %d runs not Disallowed Syscall", executed, notDisallowed), Model: "never created; always Disallowed Syscall", Oracle: "violates"})
 		}
+	}
+	// a call the filter itself kills ends the RUN, whichever thread makes it and whatever the other threads do afterwards
+	{
+		work, _ := os.MkdirTemp("", "verif-c03t-")
+		work, _ = filepath.EvalSymlinks(work)
+		reps := 2
+		if tier == "thorough" {
+			reps = 40
+		}
+		for rep := 0; rep < reps; rep++ {
+			for _, script := range []string{
+				"thread;sleep 150;sys 231 0;endthread;sys 170 s:x 1;sleep 3000;exit 0", // main thread makes the call, another thread later ends the process with exit_group(0)
+				"thread;sleep 150;sys 231 7;endthread;thread;sleep 5000;endthread;sys 170 s:x 1;sleep 3000;exit 0",
+				"thread;sys 170 s:x 1;sleep 3000;endthread;sleep 150;exit 0",                             // a non-leader thread makes the call, the leader exits 0 afterwards
+				"fork;thread;sleep 100;sys 231 0;endthread;sys 170 s:x 1;sleep 3000;endfork;wait;exit 0", // in a child process
+			} {
+				h := &c03Handler{byID: map[int]string{}, byName: map[string]string{}, workdir: work}
+				r, _ := runPtraceProbe(RunSpec{Script: script, Filter: filter, Handler: h, WorkDir: work, Timeout: 20 * time.Second})
+				res.Case("filter-kill-threads "+script+itoa(rep), true, "filter-kill-threads")
+				res.Traces++
+				if r.Status != runner.StatusDisallowedSyscall {
+					res.Mismatch(Mismatch{Kind: "oracle", What: "a syscall the filter kills ends the run as Disallowed Syscall, in a multi-threaded program too (C03_kill_ends_run)", Input: script + " (sys 170 = sethostname, not allow-listed, default action kill)",
+						Impl: fmt.Sprintf("status=%v exit=%d err=%q", r.Status, r.ExitStatus, r.Error), Model: "Disallowed Syscall", Oracle: "violates"})
+				}
+			}
+		}
+		// a banned call returns the error the caller configured at the time of the run
+		oldBan := ptrace.BanRet
+		for _, e := range []syscall.Errno{syscall.EACCES, syscall.EPERM, syscall.ENOENT, syscall.ENOSYS, syscall.Errno(200)} {
+			ptrace.BanRet = e
+			h := &c03Handler{byID: map[int]string{0: "b"}, byName: map[string]string{}, workdir: work}
+			r, out := runPtraceProbe(RunSpec{Script: "sys 258 fdcwd64 s:m0 493; exit 0", Filter: filter, Handler: h, WorkDir: work})
+			res.Case(fmt.Sprintf("ban-return %d", int(e)), true, "ban-return")
+			res.Traces++
+			want := fmt.Sprintf("sys 258 = -1 %d", int(e))
+			_, statErr := os.Stat(filepath.Join(work, "m0"))
+			if r.Status != runner.StatusNormal || !strings.Contains(out, want) || statErr == nil {
+				res.Mismatch(Mismatch{Kind: "oracle", What: "a banned syscall does not execute and the program sees the configured error return (C03_ban_seen)", Input: fmt.Sprintf("ptrace.BanRet = %d before the run; `sys 258 (mkdirat) m0` banned by the handler", int(e)),
+					Impl: fmt.Sprintf("status=%v output=%q directory-created=%v", r.Status, strings.TrimSpace(out), statErr == nil), Model: want, Oracle: "violates"})
+			}
+			os.Remove(filepath.Join(work, "m0"))
+		}
+		ptrace.BanRet = oldBan
+		os.RemoveAll(work)
 	}
 	res.Sample("fork; sys 258 fdcwd64 s:m0 493 [ban]; endfork; wait; sys 258 fdcwd64 s:m1 493 [allow]; exit 0 -> lines [sys 258 = -1 13, sys 258 = 0 0] dirs [m1] status normal")
 }
